@@ -8,7 +8,11 @@ C14 — OSCORE protection round-trips, matches RFC 8613, and tampering is detect
 NOT a theorem: "every modification is rejected" — that is unforgeability of the MAC, a cryptographic
 assumption.  What is proved: the AEAD round-trips for every block function, decryption rejects
 exactly when the recomputed tag differs (or the input is shorter than a tag), and the inputs of the
-tag (AAD, nonce) determine kid / Partial IV / algorithm injectively.
+tag (AAD, nonce) determine kid / Partial IV / algorithm injectively (`aad_injective`, `nonce_injective`,
+from `cbor_head_injective` / `cbor_bstr_injective`); libcoap's helpers (M) equal S (`aad_eq_spec`,
+`nonce_eq_spec`, `option_value_eq_spec`, `split_eq_spec`, `info_eq_spec`); `unprotect ∘ protect` is the
+identity for requests and, up to the recipient's Observe value (D14.3), for responses (`unprotect_protect`).
+Helper lemmas: Lemmas/Oscore.lean, OscoreCbor.lean, OscoreNonce.lean, OscoreOpt.lean, OscorePlain.lean.
 -/
 namespace Coap.C14
 open Coap.Spec.Crypto Coap.Spec.Oscore
@@ -333,6 +337,36 @@ theorem split_eq_spec :
     intro o _
     by_cases h6 : o.1 = 6 <;> simp [h6]
 
+/-- libcoap's `compose_info` (M) builds the HKDF `info` structure of RFC 8613 §3.2.1 (S), for every id, ID Context
+(absent or non-empty, D14.10), type string, length, and every algorithm id that fits libcoap's `uint8_t` -/
+theorem info_eq_spec (alg : Nat) (id : Bytes) (idctx : Option Bytes) (type : Bytes) (L : Nat) (ha : alg < 256)
+    (hc : idctx ≠ some []) : M.Oscore.composeInfo alg id idctx type L = info id idctx (alg : Int) type L := by
+  have hm : alg % 256 = alg := Nat.mod_eq_of_lt ha
+  have hi : cborInt (alg : Int) = cborHead 0 alg := by simp [cborInt]
+  cases idctx with
+  | none =>
+    simp only [M.Oscore.composeInfo, info, M.Oscore.putArray, M.Oscore.putBytes, M.Oscore.putText, M.Oscore.putNil, cborArray, cborBstr,
+      cborTstr, cborUint, cborNil, (orFirst_eq _).1, (orFirst_eq _).2.1, (orFirst_eq _).2.2.1, hm, hi]
+    simp only [putUnsigned_eq]
+  | some c =>
+    have : c.length > 0 := by
+      cases c with
+      | nil => exact absurd rfl hc
+      | cons _ _ => simp
+    simp only [M.Oscore.composeInfo, info, M.Oscore.putArray, M.Oscore.putBytes, M.Oscore.putText, cborArray, cborBstr,
+      cborTstr, cborUint, (orFirst_eq _).1, (orFirst_eq _).2.1, (orFirst_eq _).2.2.1, hm, hi, this, if_true]
+    simp only [putUnsigned_eq]
+
+/-- `split_merge_inverse` for responses: the outer options that survive §8.4 step 1, merged with the inner options
+after the recipient has set the Observe value (`obs`; the sender blanked it, D14.3), are the original options with
+that Observe value — for every sorted list without an OSCORE option. -/
+theorem split_merge_inverse_response (os : List Opt) (ov obs : Bytes) (hs : os.Pairwise (fun a b => a.1 ≤ b.1))
+    (hno : ∀ o ∈ os, o.1 ≠ optOscore) :
+    mergeOpts (withOscore (outerOpts os) ov)
+        ((innerOpts false os).map fun o => if o.1 = optObserve then (o.1, obs) else o) =
+      os.map fun o => if o.1 = optObserve then (o.1, obs) else o :=
+  split_merge_response os ov obs hs hno
+
 /-! ### the round trip, requests and responses -/
 
 /-- **Requests**: `unprotect ctxR (protect ctxS m) = ok m` with the sender's binding, for every block cipher, matching
@@ -517,5 +551,8 @@ example : (protectRequest (fun _ b => b) ⟨[], [1], none, 10, [1, 2], [3, 4], [
 /-- D14.3: what the recipient of a notification with Partial IV 0x012c sees -/
 example : normalize false (pivBytes 300) ⟨2, 69, 7, [9], [(6, [1]), (12, [])], [1]⟩ = ⟨2, 69, 7, [9], [(6, [1, 0x2c]), (12, [])], [1]⟩ := by
   decide
+
+/-- RFC 8613 C.1.1 `info` for the Common IV through M -/
+example : M.Oscore.composeInfo 10 [] none labelIV 13 = [0x85, 0x40, 0xf6, 0x0a, 0x62, 0x49, 0x56, 0x0d] := by decide
 
 end Coap.C14
